@@ -69,7 +69,10 @@ def build_native(outdir, repo_sources, harness, extra_cpp=(), defines=(), saniti
     for f in list(extra_cpp) + [harness, VERIF + '/env/vp_native.cpp']:
         o = outdir + '/' + os.path.basename(f) + '.o'
         objs.append(o)
-        jobs.append((base + ['-c', f, '-o', o], None))
+        if f.endswith('.c'):
+            jobs.append((['gcc', '-DVP_NATIVE', '-O1', '-g', '-w', '-I' + VERIF + '/env'] + san + ['-c', f, '-o', o], None))
+        else:
+            jobs.append((base + ['-c', f, '-o', o], None))
 
     def comp(j):
         cmd, final = j
